@@ -6,7 +6,7 @@
    w: witnesses for the textual metadata values: f field, v value, off offset of an occurrence
    inside the citation's own extent or the joint extent of the citations starting at the same
    place (-1 = none found).  TLC verifies every witness (slice equality and containment). *)
-EXTENDS Integers, Sequences, FiniteSets, Json, IOUtils, TLC
+EXTENDS Integers, Sequences, FiniteSets, Json, IOUtils, TLC, Hits
 Traces == JsonDeserialize(IOEnv.TRACE_FILE)
 NT == Len(Traces)
 VARIABLES tid, bucket
@@ -19,7 +19,9 @@ SameStart(cs, k) == {j \in DOMAIN cs : cs[j].fs = cs[k].fs}
 JointLo(cs, k) == Min2({cs[j].fs : j \in SameStart(cs, k)})
 JointHi(cs, k) == Max2({cs[j].fe : j \in SameStart(cs, k)})
 
-Clauses == {"C04.noraise", "C02.bounds", "C02.slice", "C02.pinspan", "C02.pintext", "C17.ownextent"}
+ClauseSeq == <<"C04.noraise", "C02.bounds", "C02.slice", "C02.pinspan", "C02.pintext", "C17.ownextent">>
+Clauses == {ClauseSeq[ci] : ci \in DOMAIN ClauseSeq}
+ASSUME PrintT(<<"CLAUSES", ToJson(ClauseSeq)>>)
 Holds(cl, t) ==
   LET tr == T(t)  cs == tr.cites  n == Len(tr.text) IN
   IF tr.raised # "" THEN cl # "C04.noraise"
@@ -45,6 +47,17 @@ Holds(cl, t) ==
 TInit == tid = 0 /\ bucket \in 0..(NB - 1)
 TNext == tid = 0 /\ (\E t \in {x \in 1..NT : x % NB = bucket} : tid' = t) /\ UNCHANGED bucket
 TSpec == TInit /\ [][TNext]_<<tid, bucket>>
-Judge == tid # 0 => \A cl \in Clauses : Holds(cl, tid) \/ PrintT(<<"FAIL", tid, cl>>)
+Exercised(cl, t) ==
+  LET tr == T(t)  cs == tr.cites IN
+  IF cl = "C04.noraise" THEN TRUE
+  ELSE IF tr.raised # "" THEN FALSE
+  ELSE CASE cl = "C02.bounds"  -> \E k \in DOMAIN cs : cs[k].fs < cs[k].s /\ cs[k].e < cs[k].fe   \* a proper full span
+    [] cl = "C02.slice"   -> cs # <<>>
+    [] cl = "C02.pinspan" -> \E k \in DOMAIN cs : cs[k].ps < cs[k].s \/ cs[k].e < cs[k].pe        \* a proper pin-cite span
+    [] cl = "C02.pintext" -> \E k \in DOMAIN cs : cs[k].poff # -2
+    [] cl = "C17.ownextent" -> \E k \in DOMAIN cs : cs[k].w # <<>>
+    [] OTHER -> FALSE
+Judge == tid # 0 => (/\ \A cl \in Clauses : Holds(cl, tid) \/ PrintT(<<"FAIL", tid, cl>>)
+   /\ PrintT(<<"HIT", tid, Mask([ci \in DOMAIN ClauseSeq |-> Exercised(ClauseSeq[ci], tid)])>>))
 Done == tid # 0 => PrintT(<<"DONE", tid>>)
 =============================================================================
